@@ -77,7 +77,7 @@ PROPS = {
     "C16": dict(
         lean_modules=["Liftbridge.Props.C16", "Liftbridge.Props.C16Seq"],
         gen_sources=LOG_SOURCES + ["server/partition.go:partition.messageProcessingLoop", "server/api.go:apiServer.ensurePublishPreconditions"],
-        runs=[dict(go_pkg="./server/commitlog", test="TestVerifC16"), dict(go_pkg="./server", test="TestVerifC16Server")],
+        runs=[dict(go_pkg="./server/commitlog", test="TestVerifC16"), dict(go_pkg="./server", test="TestVerifC16Server"), dict(go_pkg="./server", test="TestVerifC16Restore")],
         level="proof",
         assumptions=LOG_ASSUME + ["concurrent publishers are serialised by the partition leader's single message-processing loop with batch size 1 (extracted fact); their interleavings are the arrival orders",
                                   "Model/Sequencer.lean: the loop may cut the arrival sequence into any non-empty batches of at most batchLimit messages (timing is not modelled: every cut is covered); a failed Append is answered to msgBatch[0] only; the server-level run checks this against the Append calls recorded on a running server with a batching window",
